@@ -369,8 +369,9 @@ class BlockParser(Parser[BlockState]):
         # scan children state
         child = state.child_state(text)
         if state.depth() >= self.max_nested_level - 1:
-            rules = list(self.block_quote_rules)
-            rules.remove("block_quote")
+            # stop nesting any container, otherwise alternating quotes and
+            # lists would nest (and recurse) without bound
+            rules = [r for r in self.block_quote_rules if r not in ("block_quote", "list")]
         else:
             rules = self.block_quote_rules
 
